@@ -15,6 +15,7 @@
 package etcd
 
 import (
+	"bytes"
 	"context"
 	"fmt"
 	"time"
@@ -164,7 +165,9 @@ func isCreate(txn *etcdserverpb.TxnRequest) *etcdserverpb.PutRequest {
 		txn.Compare[0].GetModRevision() == 0 &&
 		len(txn.Failure) == 0 &&
 		len(txn.Success) == 1 &&
-		txn.Success[0].GetRequestPut() != nil {
+		txn.Success[0].GetRequestPut() != nil &&
+		isSingleKey(txn.Compare[0].RangeEnd) &&
+		bytes.Equal(txn.Compare[0].Key, txn.Success[0].GetRequestPut().Key) {
 		return txn.Success[0].GetRequestPut()
 	}
 	return nil
@@ -175,7 +178,10 @@ func isDelete(txn *etcdserverpb.TxnRequest) (int64, []byte, bool) {
 		len(txn.Failure) == 0 &&
 		len(txn.Success) == 2 &&
 		txn.Success[0].GetRequestRange() != nil &&
-		txn.Success[1].GetRequestDeleteRange() != nil {
+		txn.Success[1].GetRequestDeleteRange() != nil &&
+		isSingleKey(txn.Success[0].GetRequestRange().RangeEnd) &&
+		isSingleKey(txn.Success[1].GetRequestDeleteRange().RangeEnd) &&
+		bytes.Equal(txn.Success[0].GetRequestRange().Key, txn.Success[1].GetRequestDeleteRange().Key) {
 		rng := txn.Success[1].GetRequestDeleteRange()
 		return 0, rng.Key, true
 	}
@@ -185,7 +191,12 @@ func isDelete(txn *etcdserverpb.TxnRequest) (int64, []byte, bool) {
 		len(txn.Failure) == 1 &&
 		txn.Failure[0].GetRequestRange() != nil &&
 		len(txn.Success) == 1 &&
-		txn.Success[0].GetRequestDeleteRange() != nil {
+		txn.Success[0].GetRequestDeleteRange() != nil &&
+		isSingleKey(txn.Compare[0].RangeEnd) &&
+		isSingleKey(txn.Failure[0].GetRequestRange().RangeEnd) &&
+		isSingleKey(txn.Success[0].GetRequestDeleteRange().RangeEnd) &&
+		bytes.Equal(txn.Compare[0].Key, txn.Failure[0].GetRequestRange().Key) &&
+		bytes.Equal(txn.Compare[0].Key, txn.Success[0].GetRequestDeleteRange().Key) {
 		return txn.Compare[0].GetModRevision(), txn.Success[0].GetRequestDeleteRange().Key, true
 	}
 	return 0, nil, false
@@ -198,7 +209,11 @@ func isUpdate(txn *etcdserverpb.TxnRequest) (int64, []byte, []byte, int64, bool)
 		len(txn.Success) == 1 &&
 		txn.Success[0].GetRequestPut() != nil &&
 		len(txn.Failure) == 1 &&
-		txn.Failure[0].GetRequestRange() != nil {
+		txn.Failure[0].GetRequestRange() != nil &&
+		isSingleKey(txn.Compare[0].RangeEnd) &&
+		isSingleKey(txn.Failure[0].GetRequestRange().RangeEnd) &&
+		bytes.Equal(txn.Compare[0].Key, txn.Success[0].GetRequestPut().Key) &&
+		bytes.Equal(txn.Compare[0].Key, txn.Failure[0].GetRequestRange().Key) {
 		return txn.Compare[0].GetModRevision(),
 			txn.Compare[0].Key,
 			txn.Success[0].GetRequestPut().Value,
@@ -206,6 +221,11 @@ func isUpdate(txn *etcdserverpb.TxnRequest) (int64, []byte, []byte, int64, bool)
 			true
 	}
 	return 0, nil, nil, 0, false
+}
+
+// isSingleKey reports whether an operation without range_end addresses exactly one key
+func isSingleKey(rangeEnd []byte) bool {
+	return len(rangeEnd) == 0
 }
 
 func isCompact(txn *etcdserverpb.TxnRequest) bool {
